@@ -57,6 +57,7 @@ for r in miss:
 print(f"{prop} [thorough]: configurations agree={agree}; self-test {c['selftest']['ok']}/{len(res)} mutants as expected, {len(miss)} missed, {len(c['selftest']['skipped'])} skipped")
 if not agree:
     print(f"UNDECIDED property={prop} verdicts differ between build configurations: {cfg}")
-    sys.exit(2 if base == 0 else base)
+    print(f"VIOLATION property={prop} replay={ev}")
+    sys.exit(1)
 sys.exit(base)
 PY
